@@ -56,10 +56,26 @@ def prelude_statements(pkg):
     from .inline import inline_helpers
     fn, _ = inline_helpers(pkg, pkg.method("Graph", "optimize"), keep=("_calc_chi2_gradient_hessian", "calc_chi2", "_initialize"))
     pre = []
-    for st in fn.body:
-        if isinstance(st, (ast.For, ast.While)) and any(isinstance(x, ast.Call) and "_calc_chi2_gradient_hessian" in ast.unparse(x.func) for x in ast.walk(st)):
-            break
-        pre.append(st)
+
+    def is_main_loop(st):
+        return isinstance(st, (ast.For, ast.While)) and any(isinstance(x, ast.Call) and "_calc_chi2_gradient_hessian" in ast.unparse(x.func) for x in ast.walk(st))
+
+    def collect(stmts):
+        """statements executed before the main loop; descends into with/try blocks that contain the loop"""
+        for st in stmts:
+            if is_main_loop(st):
+                return True
+            if isinstance(st, (ast.With, ast.Try)) and any(is_main_loop(x) for x in ast.walk(st)):
+                if isinstance(st, ast.With):
+                    for item in st.items:
+                        if item.optional_vars is not None:
+                            pre.append(ast.Assign(targets=[item.optional_vars], value=item.context_expr, lineno=st.lineno))
+                if collect(st.body):
+                    return True
+                continue
+            pre.append(st)
+        return False
+    collect(fn.body)
 
     def stores_fixed(st):
         return any(isinstance(n, ast.Attribute) and isinstance(n.ctx, ast.Store) and n.attr in ("fixed", "_fixed_gradient_indices") for n in ast.walk(st)) or \
